@@ -75,6 +75,13 @@ def run(ctx):
     for n, (w, mt, base, pos, lab) in enumerate(cases):
         s = dc.stock(w)
         unk_tags = [t for t in (5001, 5003, 40000, 65535) if t not in s.bynum]
+        # unknown tags that equal a known field number modulo 2^16 / 2^32 / 2^64 (a wrapping conversion would decode
+        # them as that field): only for fields the base message does not carry
+        present = {dc.tagnum(t) for t, _ in base}
+        for known in (58, 50, 1):
+            if known in s.bynum and known not in present:
+                unk_tags += [2 ** 16 + known, 2 ** 32 + known, 10 ** 17 + known]
+                break
         with_unk, ins = [], []
         for i in range(len(base) + 1):
             for p in pos:
